@@ -349,6 +349,10 @@ func Applicable(target string, c Call) bool {
 		}
 	}
 
+	if c.Op == "setuser" && !strings.HasPrefix(target, "memfs") && target != "osfs" {
+		return false // only MemFS has an identity manager (C03 is about MemFS)
+	}
+
 	if strings.HasPrefix(target, "orefafs") {
 		switch c.Op {
 		case "symlink", "readlink", "evalsymlinks", "chown", "lchown", "fchown":
